@@ -366,4 +366,41 @@ theorem mem_children_exec (steps : List (Step β)) (s : State β) (p : Path) (n 
     · rw [he]; exact hn
     · rw [he]; exact mem_children_set _ _ _ _ _ hn
 
+theorem get_ne_none_of_mem (s : State β) (a : Path) (g : File β) (h : (a, g) ∈ s) : get s a ≠ none := by
+  induction s with
+  | nil => cases h
+  | cons e r ih =>
+    obtain ⟨b, gb⟩ := e
+    by_cases hb : b = a
+    · simp [get, hb]
+    · simp only [get, hb, if_false]
+      rcases List.mem_cons.mp h with h1 | h1
+      · cases h1; exact absurd rfl hb
+      · exact ih h1
+
+theorem dropLast_append_of_getLast? {α : Type} (l : List α) (a : α) (h : l.getLast? = some a) :
+    l.dropLast ++ [a] = l := by
+  induction l with
+  | nil => simp at h
+  | cons x r ih =>
+    cases r with
+    | nil => simp at h; simp [h]
+    | cons y t =>
+      have h' : (y :: t).getLast? = some a := by simpa [List.getLast?_cons_cons] using h
+      simp only [List.dropLast_cons₂, List.cons_append]
+      rw [ih h']
+
+/-- a listed name has an entry -/
+theorem get_ne_none_of_mem_children (s : State β) (p : Path) (n : Name) (h : n ∈ children s p) :
+    get s (p ++ [n]) ≠ none := by
+  simp only [children, List.mem_filterMap] at h
+  obtain ⟨⟨a, g⟩, he, hx⟩ := h
+  split at hx
+  · rename_i hd
+    have : a = p ++ [n] := by
+      have := dropLast_append_of_getLast? a n hx
+      rw [← this, hd]
+    exact this ▸ get_ne_none_of_mem s a g he
+  · cases hx
+
 end HedVerif.FS
